@@ -72,7 +72,14 @@ def run_case(chk, fn, src, focus, ctxvar, kinds, args, script, gscript, stats, s
             def setter(data, ov=ov):
                 r = ov(data.get(focus), data)
                 return ABSENT if r is None else r
-            p.override(setter)
+            if chk.rng.random() < 0.4:
+                # the same override written as a filtered stream: it declines by not reaching the end of the pipe
+                p.filter(lambda data, ov=ov: ov(data.get(focus), data) is not None).override(
+                    lambda data, ov=ov: ov(data.get(focus), data))
+                chk.dist("override-form:filtered-stream")
+            else:
+                p.override(setter)
+                chk.dist("override-form:setter")
             probes.append(p)
         pp = ptera.probing("%s > %s" % (fn["name"], focus), env=mod.__dict__)
         pp.subscribe(lambda d: plain_stream.append(progrun.plain(d[focus])))
